@@ -81,7 +81,7 @@ def run(F, run, tier):
                               "dividend of lower degree than the divisor: expected (0, dividend), got (%s, %s)" % (q, r))
                 run.check(len(q) >= 1 and len(r) >= 1, "R12.3", dp, "non-empty:" + inst, where, "empty coefficient vector in the result")
     # complex coefficients (both parts generic; purely imaginary leading coefficients): same identities
-    for la, lb, mk in ((4, 2, "complex"), (4, 3, "complex"), (4, 2, "imaginary-lead"), (5, 3, "imaginary-lead"), (2, 3, "imaginary-lead")):
+    for la, lb, mk in ((4, 2, "complex"), (4, 3, "complex"), (3, 1, "complex"), (3, 1, "imaginary-lead"), (4, 2, "imaginary-lead"), (5, 3, "imaginary-lead"), (2, 3, "imaginary-lead")):
         if budget_hits >= 2:
             break
         a = PI.csymbols("a", la) if mk == "complex" else PI.with_imaginary_lead("a", la)
@@ -105,7 +105,10 @@ def run(F, run, tier):
         run.check(PI.timed(lambda: PI.same_poly(recon, a), 60, False), "R12.2", dp, "reconstruction:" + inst, where,
                   "with %s coefficients quotient·divisor + remainder differs from the dividend" % mk, sample="%s: a = q·d + r" % inst)
         rt = PI.trimmed([sp.simplify(x) for x in r])
-        if la >= lb:
+        if lb == 1:
+            run.check(PI.same_poly(r, [0]) and PI.timed(lambda: PI.same_poly(q, [x / b[0] for x in a]), 60, False), "R12.1", dp, "constant-divisor:" + inst, where,
+                      "division by a %s constant does not give (dividend/c, 0)" % mk)
+        elif la >= lb:
             run.check(len(rt) < lb, "R12.3", dp, "remainder-degree:" + inst, where, "remainder has %d coefficients, divisor has %d" % (len(rt), lb))
         else:
             run.check(PI.same_poly(r, a), "R12.3", dp, "small-dividend:" + inst, where, "dividend of lower degree must come back as the remainder")
